@@ -5,7 +5,7 @@
    '\$' are accepted under XPath and are syntax errors under XSD.  Partial: the rest of the pattern
    half (P1/P2; reluctant quantifiers, back-references) is carried by the correspondence against the
    three-valued grammar and by the both-dialects comparison. *)
-From RX Require Import Base.Prelude Spec.Syntax Spec.Parse Model.Op Model.Compiler Proofs.SmallFacts Proofs.DialectFacts.
+From RX Require Import Base.Prelude Spec.Syntax Spec.Parse Model.Op Model.Compiler Proofs.SmallFacts Proofs.DialectFacts Model.Matcher Model.Engine Proofs.GroupGrammar Proofs.GroupSpec.
 
 Theorem C17_flags :
   forall (s : list N), existsb (N.eqb 59) s = false ->
@@ -58,8 +58,25 @@ Theorem C17_escaped_dollar_by_dialect_partial :
     escape pat xpath in_sq st = if xpath then Ok (EChar 36, adv 2 st) else Err ESyntax.
 Proof. exact escape_dollar. Qed.
 
+(* the common subset behaves the same: every pattern of the grammar of Proofs/GroupGrammar.v that is
+   valid under XSD (capturing groups only, greedy quantifiers only) compiles under both dialects, and
+   the two programs give the same verdict on every input *)
+Theorem C17_group_grammar_same_in_both_dialects :
+  forall fl fl' a input,
+    ok_a false a = true -> f_xpath fl = false -> f_xpath fl' = true ->
+    f_case fl = f_case fl' -> f_multi fl = f_multi fl' ->
+    f_literal fl = false -> f_literal fl' = false -> f_ws fl = false -> f_ws fl' = false ->
+    (N.of_nat (length input) < umax)%N ->
+    exists prog prog', compile true fl (show_a a) = Ok prog /\ compile true fl' (show_a a) = Ok prog'
+      /\ match matches prog input 0 st0, matches prog' input 0 st0 with
+         | MTrue _, MTrue _ | MFalse _, MFalse _ => True
+         | _, _ => False
+         end.
+Proof. exact grammar_same_in_both_dialects. Qed.
+
 Print Assumptions C17_flags.
 Print Assumptions C17_q_rejected.
 Print Assumptions C17_caret_dollar_by_dialect_partial.
 Print Assumptions C17_noncapturing_rejected_in_xsd_partial.
 Print Assumptions C17_escaped_dollar_by_dialect_partial.
+Print Assumptions C17_group_grammar_same_in_both_dialects.
